@@ -895,7 +895,7 @@ func genSliceIdioms() string {
 	sort.Strings(keys)
 	var b strings.Builder
 	b.WriteString(header("sliceidioms", "types/arraytype.go, types/hashtype.go, types/basiccollector.go, types/parser.go, px/collection.go"))
-	b.WriteString("import Pcore.Model.SliceHeap\nnamespace Pcore.Generated\nopen Pcore.Coll\n\n")
+	b.WriteString("import Pcore.Model.SliceHeap\nnamespace Pcore.Generated\nopen Pcore.Heap\n\n")
 	b.WriteString("def sliceIdioms : List (String × Idiom) := [\n")
 	var lines []string
 	for _, k := range keys {
